@@ -24,6 +24,7 @@
 -/
 import SF.Gotype.Unfold
 import SF.Proofs.FuIdTop
+import SF.Proofs.FuIdStructTop
 namespace SF.Props.C11
 open SF SF.Unf
 
@@ -205,3 +206,78 @@ example :
     | _ => false) = true := by decide +kernel
 
 end SF.PropsFu.C11
+
+
+/-! ## C11, composed statement for STRUCT types with fields of primitive kind (direct path)
+
+Proof files SF/Proofs/FuIdStruct{Fold,Run,Agree,Top}.lean.  Fields are described one by one through the
+DOCUMENTED tag grammar (`fieldKind`): dropped (unexported, `-`, `omit`) or a plain member (tag name or the
+lower-cased field name); no `omitempty`, no `inline` (those and nested structs: correspondence + oracle `fu`).
+The hypotheses about the Unfold side of the translated type (`hcomp`: it compiles to the table `fields`;
+`hFM`: the table agrees with the description; `hz`, `hv0`: the zero value; `hnd`: member names distinct —
+forced, `SetTarget` refuses duplicate names) are about TYPES only and are discharged for the instance
+`Inner` below, except `hcomp`, which the kernel cannot evaluate (`String.trimAscii` in the mirror of
+tags.go) and which is therefore evaluated by `#guard` at build time. -/
+namespace SF.PropsFuStruct.C11
+open SF SF.Gotype SF.Gotype.Fold SF.FoldProofs SF.FuId SF.Props.FuId
+open SF.Unf (Ctx newUnfolder setTarget typeFuel)
+open SF.Ops.Unf (xevToUEvs)
+open SF.Ops.Fu (feed agreeF)
+open SF.UnfProofs.StructVal (FM Shaped)
+
+/-- structs (named or not) whose fields are dropped or plain members of scalar type, EVERY value: the fold
+succeeds, every token is accepted, the new value is exactly the translated struct (dropped fields zero; a
+float32 member holding a signalling NaN comes back quieted), the Unfolder is idle again, and the oracle's
+comparison holds (under the NaN side condition, see `struct_side_condition`) -/
+theorem fold_unfold_struct_prim (o : FoldOpts) (hfail : o.failAt = none) (S : GoType) (fs : List Field)
+    (ds : List FD) (vs : List GoVal)
+    (hg : goodT [] S = true) (hu : S.under = .struct fs) (hd : Desc fs ds) (hv : Vals ds vs)
+    (ut : Unf.GoType) (nm : String) (ufs : List (String × String × Unf.GoType)) (fields : Unf.Fields) (R : Unf.Reg)
+    (htr : Unf.Tr.trType S = some ut) (hS : ut.un Unf.Tr.fuTable = .struct nm ufs)
+    (hcomp : Unf.lookupReflUnfolder Unf.Tr.fuTable typeFuel [] newUnfolder.reg ut = .ok (.struct fields, R))
+    (hFM : FM Unf.Tr.fuTable ut fields (sfOf ds 0))
+    (hnd : ((sfOf ds 0).map (·.1)).Nodup)
+    (hz : Unf.zero Unf.Tr.fuTable ut = .struct (zerosOf ds))
+    (hv0 : Shaped Unf.Tr.fuTable ut (Unf.zero Unf.Tr.fuTable ut)) :
+    ∃ c0 c1,
+      Unf.Tr.trType S = some ut ∧
+      setTarget Unf.Tr.fuTable ut (Unf.zero Unf.Tr.fuTable ut) newUnfolder = .ok c0 ∧
+      (impl o S (.struct vs)).res = .ok ∧
+      feed c0 ((impl o S (.struct vs)).evs.map xevToUEvs) = (c1, none) ∧
+      c1.target = .struct (trFields ds vs) ∧
+      c1 = { newUnfolder with target := c1.target, env := Unf.Tr.fuTable, reg := R, cells := c1.cells,
+                              keyCache := c1.keyCache } ∧
+      c1.depths = [0, 0, 0, 0, 0, 0] ∧
+      ((∀ d v, (d, v) ∈ ds.zip vs → trField d v = trFieldX d v) →
+        agreeF "direct" 1000 S (.struct vs) (back c1.target) = true) :=
+  SF.Props.FuId.fold_unfold_struct_prim o hfail S fs ds vs hg hu hd hv ut nm ufs fields R htr hS hcomp hFM hnd hz hv0
+
+theorem struct_side_condition (d : FD) (v : GoVal) (h : d.prim ≠ .f32 ∨ isNaN32 (getF32 v) = false) :
+    trField d v = trFieldX d v :=
+  SF.Props.FuId.struct_side_condition d v h
+
+/-- unconditional instance (but for `hcomp`): the menagerie's `Inner = struct{X int; Y string "why"}`, EVERY value -/
+theorem fold_unfold_Inner (o : FoldOpts) (hfail : o.failAt = none) (vs : List GoVal) (hv : Vals dsInner vs)
+    (R : Unf.Reg)
+    (hcomp : Unf.lookupReflUnfolder Unf.Tr.fuTable typeFuel [] newUnfolder.reg utInner = .ok (.struct fieldsInner, R)) :
+    ∃ c0 c1,
+      Unf.Tr.trType tInner = some utInner ∧
+      setTarget Unf.Tr.fuTable utInner (Unf.zero Unf.Tr.fuTable utInner) newUnfolder = .ok c0 ∧
+      (impl o tInner (.struct vs)).res = .ok ∧
+      feed c0 ((impl o tInner (.struct vs)).evs.map xevToUEvs) = (c1, none) ∧
+      c1.target = .struct (trFields dsInner vs) ∧ c1.depths = [0, 0, 0, 0, 0, 0] ∧
+      agreeF "direct" 1000 tInner (.struct vs) (back c1.target) = true :=
+  SF.Props.FuId.fold_unfold_Inner o hfail vs hv R hcomp
+
+/- `hcomp` of the instance, evaluated at build time (compiled evaluation, not the kernel) -/
+#guard (match Unf.lookupReflUnfolder Unf.Tr.fuTable typeFuel [] newUnfolder.reg utInner with
+        | .ok (.struct fs, R) => some (fs.map (fun x => (x.1, x.2.1)), R.length)
+        | _ => none) == some ([([120], [0]), ([119, 104, 121], [1])], 1)
+
+/-- non-vacuity: MinInt64 in an `int` member and a string; the translated struct -/
+example : Vals dsInner [.int (-9223372036854775808), .str [104, 105]] ∧
+    trFields dsInner [.int (-9223372036854775808), .str [104, 105]] =
+      [.int .int (-9223372036854775808), .str [104, 105]] :=
+  ⟨.cons (by decide +kernel) (.cons (by decide +kernel) .nil), rfl⟩
+
+end SF.PropsFuStruct.C11
